@@ -85,15 +85,15 @@ CLAIMS = {
              "are not reported at all."),
     "C04": dict(
         category="other", engine="tracecheck+rtc",
-        technique="trace contracts over every syntactic path of the executor skeleton (Engine P) + run-time functional contract (ordered data + error multiset == reference execution algorithm) over generated operations x resolver worlds",
-        text="All paths: complete_value handles a non-null wrapper before the null test, completes null to null without side effects, serialises a leaf exactly once, executes a composite value's collected sub-selection exactly once and raises only RuntimeError / TypeError itself; _handle_non_nullable_value records exactly one error for a null and returns the value unchanged; both execute_fields resolve each grouped field once, in order, under its key. Bounded: for hand-written merge/fragment patterns plus a seeded generator of valid operations (aliases, same-key merging, fragments at every "
+        technique="trace contracts over every syntactic path of the executor skeleton (Engine P) + memo-key data-flow obligations on the per-request memos of the execution context + run-time functional contract (ordered data + error multiset + resolver arguments == reference execution algorithm) over generated operations x resolver worlds",
+        text="All requests within one context: each of the five per-request memos (collected fields, field definitions, coerced arguments, directive arguments, wrapped resolvers) is looked up and stored under a key that determines every input of the cached computation and reads only state fixed at construction. All paths: complete_value handles a non-null wrapper before the null test, completes null to null without side effects, serialises a leaf exactly once, executes a composite value's collected sub-selection exactly once and raises only RuntimeError / TypeError itself; _handle_non_nullable_value records exactly one error for a null and returns the value unchanged; both execute_fields resolve each grouped field once, in order, under its key. Bounded: for hand-written merge/fragment patterns plus a seeded generator of valid operations (aliases, same-key merging, fragments at every "
              "placement, directives with variables, abstract types, lists, arguments) and worlds placing null / ResolverError / null list item / empty "
              "list / unexpected exception at every resolved path, both synchronous executors produce exactly the reference result; results are "
              "independent of earlier requests on the same schema object.",
         note=BND + "Trusted: vf/ref_exec.py + vf/ref_coerce.py (specification transcriptions). The executor is outside the VC generator's subset."),
     "C08": dict(
         category="other", engine="tracecheck+rtc",
-        technique="map_value effect contract checked on all three runtime implementations and gather_futures' ordering (Engine P, all paths, coroutines / done-callbacks sequentialised) + run-time functional contract under every enumerated completion order of parked resolver tasks (stateless DFS over schedules), 4 configurations",
+        technique="map_value effect contract checked on all three runtime implementations, gather_futures' ordering, unwrap_future never waiting and complete_value failing the request for unrepresentable leaves (Engine P, all paths, coroutines / done-callbacks sequentialised) + run-time functional contract under every enumerated completion order of parked resolver tasks (stateless DFS over schedules), 4 configurations",
         text="BlockingRuntime.map_value, AsyncIORuntime.map_value and the thread pool's chain each satisfy the map_value effect contract on every path (then exactly once when the value arrives, else handler only for a matching failure, the target future settled exactly once); gather_futures keeps one slot per source value in source order and fails on the first failure (17 obligations). Bounded: BlockingExecutor, Executor on Blocking / AsyncIO / ThreadPool runtimes each satisfy the C04 contract for every completion order of "
              "the in-flight tasks (thread pool replaced by a parking executor incl. tasks that finish at submit time; asyncio resolvers gated by harness "
              "futures); unexpected exceptions surface unchanged; nothing stays pending once all tasks ran.",
@@ -124,8 +124,8 @@ CLAIMS = {
              "visitors and is outside the VC generator's subset."),
     "C15": dict(
         category="other", engine="tracecheck+rtc",
-        technique="trace contract over every path of _format_default_value (Engine P) + run-time contract: introspection result == schema objects member by member; defaultValue parses and coerces back to the declared default",
-        text="All paths: defaultValue is null exactly without a declared default; a declared default is rendered by printing the value node of the declared type - except string defaults of scalar type, which are wrapped in quotes unescaped (the listed finding, reproduced as the one failing path). Bounded: SDL-built and code-built schemas (defaults of every kind, deprecations, custom directives) x the standard introspection query "
+        technique="trace contract over every path of _format_default_value (Engine P) + frame obligation (the introspection module writes no module-level state) + run-time contract: introspection result == schema objects member by member; defaultValue parses and coerces back to the declared default",
+        text="All histories: no function of the introspection module writes a module-level container, so what a resolver reports depends on the live schema objects only. All paths: defaultValue is null exactly without a declared default; a declared default is rendered by printing the value node of the declared type - except string defaults of scalar type, which are wrapped in quotes unescaped (the listed finding, reproduced as the one failing path). Bounded: SDL-built and code-built schemas (defaults of every kind, deprecations, custom directives) x the standard introspection query "
              "with and without descriptions, includeDeprecated true / false / default and the disable switch: kinds, names, descriptions, wrapped type "
              "chains, fields, arguments, input fields, enum values, interfaces, possible types, directives and locations, roots and deprecations equal "
              "the schema; every defaultValue is GraphQL text that coerces back to the declared default.",
